@@ -57,9 +57,15 @@ def arm_callees(facts, arm_body):
     return out
 
 
+def scrut_is(n, enum_suffix):
+    """the scrutinee is a value of the enum itself (possibly behind references), not a tuple / Option that contains one"""
+    ty = str(n.get("scrutty", "")).replace("&mut ", "").replace("&", "").strip()
+    return enum_suffix in ty and "(" not in ty and not ty.startswith(("std::option::Option", "std::result::Result"))
+
+
 def match_arms_on(fn, enum_suffix):
     for n in walk(fn["body"]):
-        if n.get("k") == "Match" and n.get("src") == "Normal" and enum_suffix in str(n.get("scrutty", "")):
+        if n.get("k") == "Match" and n.get("src") == "Normal" and scrut_is(n, enum_suffix):
             return n["arms"]
     return None
 
